@@ -51,7 +51,12 @@ def _load_variants(prop: str) -> list[Variant]:
             meta = json.load(open(mp))
             if meta.get('property') != prop or str(meta.get('detected_now_by', '')).startswith('not detected'):
                 continue
-            rule = str(meta['detected_now_by']).split()[0].strip(',')
+            import re as _re
+            toks = _re.findall(r'C\d\d\.[a-z]\+?', str(meta['detected_now_by']))
+            mine = [t for t in toks if t.startswith(prop)]
+            if not mine:
+                continue     # detected by a rule of another property only
+            rule = mine[0]
             out.append(Variant(f'seeded:{name}', prop, os.path.join(SEEDED, name, 'patch.diff'), '', '', rule.split('.')[0] if '.' not in rule else rule,
                                note='seeded patch'))
     return out
